@@ -147,6 +147,11 @@ class CSVTracksBuilder(TracksBuilder):
         # Store position coordinates as individual attributes (z, y, x)
         node_props: dict[str, dict[str, np.ndarray | None]] = {}
         for prop_name, values in df_dict.items():
+            # (columns with a pandas string dtype keep their empty cells as NaN)
+            values = [
+                None if isinstance(value, float) and np.isnan(value) else value
+                for value in values
+            ]
             missing = np.array([value is None for value in values], dtype=np.bool_)
             if missing.all() and len(values) > 0:
                 # a column without any value carries no information
